@@ -310,4 +310,195 @@ class C08(Oracle):
         return True
 
 
-ORACLES = {'C18': C18, 'C08': C08}
+
+def run_atoms_stepwise(case):
+    """yields (atom_name, state_before(copy), state_after(copy), error) for each atom of the chain"""
+    from harness.recrng import ScriptRng
+    from gym_gridverse.envs import transition_functions as trf
+
+    s = fast_copy(state_from_str(case['state']))
+    a = ACTIONS[case['action']]
+    rng = ScriptRng(case['answers'])
+    for i in case['atoms']:
+        before = fast_copy(s)
+        try:
+            trf.transition_function_registry[TRANS_NAMES[i]](s, a, rng=rng)
+        except Exception as e:  # noqa
+            yield TRANS_NAMES[i], before, None, e
+            return
+        yield TRANS_NAMES[i], before, fast_copy(s), None
+
+
+def inventory(s, box_deep=False):
+    from collections import Counter
+    from gym_gridverse.grid_object import Box, Floor, NoneGridObject
+
+    c = Counter()
+
+    def add(o):
+        if isinstance(o, (Floor, NoneGridObject)):
+            return
+        c[(type(o).__name__, o.color.name)] += 1
+        if box_deep and isinstance(o, Box):
+            add(o.content)
+
+    for row in s.grid.objects:
+        for o in row:
+            add(o)
+    add(s.agent.grid_object)
+    return c
+
+
+class C09(Oracle):
+    prop = 'C09'
+
+    def gen(self, rng):
+        return gen_step_cases(rng)
+
+    def from_line(self, line):
+        return step_case_from_line(line)
+
+    def check(self, c):
+        from gym_gridverse.grid_object import Beacon, Box, Door, Exit, Floor, NoneGridObject, Telepod, Wall
+
+        out = []
+        a = ACTIONS[c['action']]
+        for name, b, s, err in run_atoms_stepwise(c):
+            if not in_grid(b.grid, b.agent.position) and name == 'teleport':
+                return out
+            if err is not None:
+                sig = 'pickndrop/front-outside-grid' if name == 'pickndrop' and not in_grid(b.grid, b.agent.front()) else f'{name}/raises'
+                out.append(V(sig, f'{type(err).__name__} in {name} on {enc_state(b)} a={a}'))
+                return out
+            front = b.agent.front()
+            fin = in_grid(b.grid, front)
+            ib, ia = inventory(b), inventory(s)
+            if name != 'actuate_box':
+                if ib != ia:
+                    sig = 'pickndrop/front-outside-grid' if name == 'pickndrop' and not fin else f'{name}/inventory-changed'
+                    out.append(V(sig, f'{name} on {enc_state(b)} a={a}: {dict(ib)} -> {dict(ia)}'))
+            else:
+                if ib != ia:
+                    ok = fin and isinstance(b.grid[front], Box) and a.name == 'ACTUATE'
+                    if ok:
+                        exp = ib.copy()
+                        exp[('Box', 'NONE')] -= 1
+                        cont = b.grid[front].content
+                        if not isinstance(cont, Floor):
+                            exp[(type(cont).__name__, cont.color.name)] += 1
+                        exp = +exp
+                        ok = exp == ia
+                    if not ok:
+                        out.append(V('actuate_box/inventory-changed', f'{enc_state(b)} a={a}'))
+            # scenery never moves
+            for p in b.grid.area.positions():
+                o = b.grid[p]
+                if isinstance(o, (Wall, Exit, Door, Beacon, Telepod)):
+                    o2 = s.grid[p]
+                    if type(o2) is not type(o) or o2.color != o.color:
+                        out.append(V(f'{name}/scenery-changed', f'{enc_state(b)} a={a} at {p}'))
+                        break
+            if name == 'pickndrop':
+                fo = b.grid[front] if fin else None
+                fires = a.name == 'PICK_N_DROP' and fin and (isinstance(fo, Floor) or fo.holdable)
+                changed = [p for p in b.grid.area.positions() if s.grid[p] is not None and enc_state_cell(s, p) != enc_state_cell(b, p)]
+                if not fires:
+                    if changed or enc_held(s) != enc_held(b):
+                        sig = 'pickndrop/front-outside-grid' if not fin else 'pickndrop/acts-when-it-should-not'
+                        out.append(V(sig, f'{enc_state(b)} a={a}'))
+                else:
+                    if any(p != front for p in changed):
+                        out.append(V('pickndrop/writes-other-cell', f'{enc_state(b)} a={a}'))
+                    held = b.agent.grid_object
+                    empty = isinstance(held, NoneGridObject)
+                    exp_front = Floor() if empty else held
+                    exp_held = fo if fo.holdable else NoneGridObject()
+                    from harness.codec import enc_obj
+
+                    if enc_obj(s.grid[front]) != enc_obj(exp_front) or enc_obj(s.agent.grid_object) != enc_obj(exp_held):
+                        out.append(V('pickndrop/wrong-effect', f'{enc_state(b)} a={a} -> {enc_state(s)}'))
+                    if not isinstance(s.agent.grid_object, NoneGridObject) and not s.agent.grid_object.holdable:
+                        out.append(V('pickndrop/non-holdable-in-hand', f'{enc_state(b)} a={a}'))
+        return out
+
+
+def enc_state_cell(s, p):
+    from harness.codec import enc_obj
+
+    return enc_obj(s.grid[p])
+
+
+def enc_held(s):
+    from harness.codec import enc_obj
+
+    return enc_obj(s.agent.grid_object)
+
+
+class C10(Oracle):
+    prop = 'C10'
+
+    def gen(self, rng):
+        from harness.codec import dec_obj
+
+        base = gen_step_cases(rng)
+        while True:
+            if rng.random() < 0.5:
+                yield next(base)
+                continue
+            # door/box focused: every status x colour x held x relative pose
+            h, w = rng.randint(1, 4), rng.randint(1, 4)
+            cells = {}
+            dy, dx = rng.randrange(h), rng.randrange(w)
+            st, col = rng.randrange(3), rng.randrange(5)
+            cells[(dy, dx)] = rng.choice([f'D{st}{col}', f'D{st}{col}', 'XK1', 'XF', f'XD{st}{col}', 'XXF'])
+            y, x = rng.randrange(h), rng.randrange(w)
+            held = rng.choice(['N', f'K{col}', f'K{rng.randrange(5)}', 'W', 'O', 'XF', f'D2{col}'])
+            s = gen.mk_state(h, w, cells, y, x, rng.choice(gen.ORIENTS), held)
+            atoms = rng.choice([[4], [5], [0, 1, 4, 2], [0, 1, 4, 2, 5], [6, 4, 5], [3, 4]])
+            yield {'kind': 'step', 'atoms': atoms, 'state': enc_state(s), 'action': rng.choice([6, 6, 6, 7, 0, 4, rng.randrange(8)]), 'answers': [rng.randrange(8) for _ in range(6)]}
+
+    def from_line(self, line):
+        return step_case_from_line(line)
+
+    def check(self, c):
+        from gym_gridverse.grid_object import Box, Door, Key
+        from harness.codec import enc_obj
+
+        out = []
+        a = ACTIONS[c['action']]
+        for name, b, s, err in run_atoms_stepwise(c):
+            if err is not None:
+                return out  # totality is C01's business
+            front = b.agent.front()
+            for p in b.grid.area.positions():
+                o = b.grid[p]
+                if isinstance(o, Door):
+                    o2 = s.grid[p]
+                    if not isinstance(o2, Door) or o2.color != o.color:
+                        out.append(V(f'{name}/door-replaced', f'{enc_state(b)} a={a} at {p}'))
+                        continue
+                    may = name == 'actuate_door' and a.name == 'ACTUATE' and p == front and (
+                        o.state is Door.Status.CLOSED
+                        or (o.state is Door.Status.LOCKED and isinstance(b.agent.grid_object, Key) and b.agent.grid_object.color == o.color)
+                    )
+                    if o2.state != o.state:
+                        if not may:
+                            out.append(V(f'{name}/door-status-changed-unduly', f'{enc_state(b)} a={a} at {p}: {o.state}->{o2.state}'))
+                        elif o2.state is not Door.Status.OPEN:
+                            out.append(V('actuate_door/not-towards-open', f'{enc_state(b)} a={a}'))
+                    elif may:
+                        out.append(V('actuate_door/does-not-open', f'{enc_state(b)} a={a} at {p}'))
+                if isinstance(o, Box):
+                    o2 = s.grid[p]
+                    may = name == 'actuate_box' and a.name == 'ACTUATE' and p == front
+                    if may:
+                        if o2 is not o.content and enc_obj(o2) != enc_obj(o.content):
+                            out.append(V('actuate_box/not-replaced-by-content', f'{enc_state(b)} a={a}'))
+                    elif enc_obj(o2) != enc_obj(o):
+                        out.append(V(f'{name}/box-changed-unduly', f'{enc_state(b)} a={a} at {p}'))
+            if name in ('actuate_door', 'actuate_box') and enc_obj(s.agent.grid_object) != enc_obj(b.agent.grid_object):
+                out.append(V(f'{name}/held-item-changed', f'{enc_state(b)} a={a}'))
+        return out
+
+
+ORACLES = {'C18': C18, 'C08': C08, 'C09': C09, 'C10': C10}
